@@ -57,6 +57,8 @@ func instrConfig(outDir string) *instrument.Config {
 			{File: "proxy/cluster_connection.go", Pkg: "google.golang.org/grpc", Name: "NewClient", NewPkg: "vsim/seam", NewName: "GRPCNewClient"},
 			{File: "transport/mux/receiver.go", Pkg: "net", Name: "Listen", NewPkg: "vsim/simnet", NewName: "Listen"},
 			{File: "transport/mux/establisher.go", Pkg: "net", Name: "DialTimeout", NewPkg: "vsim/simnet", NewName: "DialTimeout"},
+			{File: "transport/mux/receiver.go", Pkg: "crypto/tls", Name: "Server", NewPkg: "vsim/seam", NewName: "TLSServer"},
+			{File: "transport/mux/establisher.go", Pkg: "crypto/tls", Name: "Client", NewPkg: "vsim/seam", NewName: "TLSClient"},
 		},
 		InPkg: map[string]string{
 			modPath + "/proxy":              filepath.Join(sim, "inpkg", "proxy"),
